@@ -176,7 +176,10 @@ func (s *HiddenFS) RemoveAll(name string) error {
 	}
 
 	fi, err := s.Lstat(name)
-	if err != nil {
+	if isNotFoundError(err) {
+		// nothing to remove, same as os.RemoveAll
+		return nil
+	} else if err != nil {
 		return &os.PathError{Op: "remove_all", Path: name, Err: err}
 	}
 
